@@ -12,6 +12,7 @@ import Hw.Io.SyntheticDumpLemmas
 import Hw.Io.SyntheticFilter
 import Hw.Io.SyntheticFilterLemmas
 import Hw.Io.SyntheticWFAll
+import Hw.Io.SyntheticWFFull
 import Hw.Io.SyntheticFix
 namespace Hw.Props.C07
 open Hw Hw.Syn Hw.Topo
@@ -275,7 +276,8 @@ theorem C07_build_wf_reduction (t : Topo) (h : topoOK t = true) (hp : puOK t = t
 /-- non-vacuity of the `restOK` hypothesis: it holds on the whole bounded family -/
 example : ∀ t ∈ wfFamily, restOK (toDump t) = true := fun t ht => restOK_of_wf _ (C07_build_wf_bounded t ht)
 
-/-- exactly which clauses remain unproved in general -/
+/-- exactly which clauses `C07_build_wf_clauses` does not cover (they were unproved in general when it was stated; they are now
+proved by `C07_build_wf_rest_clauses` below, `siblings-ordered` under the additional side condition `sibOK`) -/
 theorem C07_build_wf_unproved_clauses :
     (topClauses.map (·.1)).filter (fun n => !provedTopClauses.contains n) =
       [] ∧
@@ -289,6 +291,66 @@ example : wfFamily.all (fun t => topoOK t && puOK t && memOK t && numaOK t) = tr
 example : (fun t => topoOK t && puOK t && memOK t && numaOK t) (orderTopo [] [{ type := tPACKAGE, arity := 3, mem := [⟨1024, 0⟩, ⟨2048, 512⟩] },
     { type := tL1 + 2, arity := 2, cdepth := 3, ctype := 0, size := 1048576 }, { type := tCORE, arity := 2 }, { type := tPU, arity := 2 }]
     (List.range 24) (List.range 6)) = true := by decide
+
+/-! ### build_wf — the two remaining clauses and the full theorem -/
+
+/-- **the two clauses that `C07_build_wf_clauses` left open, for EVERY abstract topology**:
+`nodeset-decomposition` under `topoOK` and `numaOK` — through the real aggregate folds of `Hw.Topo.mkAux`: the memory children's
+nodesets of every normal object are pairwise disjoint, the bottom-up fold `below` (nodes attached at or below the object)
+accumulates pairwise disjoint parts, the top-down fold `inh` (nodes of the ancestors' memory children) is disjoint from it, and
+the object's nodeset is exactly `inh ||| below`;
+`siblings-ordered` under `topoOK` and the fifth side condition `sibOK` — consecutive normal siblings are listed by increasing
+first bit of their complete_cpuset, memory siblings by increasing first bit of their complete_nodeset.  `sibOK t` is exactly
+what is needed on the index sequences: for consecutive normal siblings the smallest PU os_index (`minL` of the slice of `puIdx`)
+below the first is smaller than the smallest below the second, and the NUMA os_indexes of the memory children of one object
+increase.  It is NOT implied by the other four conditions (see the example below: PU indexes [1, 0] under one root);
+it is what the core's reordering of children (`orderTopo`) establishes, and the driver evaluates it on every case. -/
+theorem C07_build_wf_rest_clauses (t : Topo) (h : topoOK t = true) :
+    (numaOK t = true → ∀ c ∈ objClauses, c.1 = "nodeset-decomposition" → ∀ o ∈ (toDump t).objs, c.2 (toDump t) (mkAux (toDump t)) o = true) ∧
+    (sibOK t = true → ∀ c ∈ objClauses, c.1 = "siblings-ordered" → ∀ o ∈ (toDump t).objs, c.2 (toDump t) (mkAux (toDump t)) o = true) := by
+  constructor
+  · intro hn c hc hname o ho
+    unfold objClauses at hc
+    simp only [List.mem_cons, List.not_mem_nil, or_false] at hc
+    rcases hc with rfl | rfl | rfl | rfl | rfl | rfl | rfl | rfl | rfl | rfl | rfl | rfl | rfl | rfl | rfl | rfl | rfl | rfl | rfl | rfl |
+      rfl | rfl | rfl | rfl | rfl | rfl | rfl | rfl | rfl | rfl
+    all_goals first
+      | exact cl_nodeset_decomposition t (topoOK_OK t h) hn o ho
+      | (exfalso; revert hname; decide)
+  · intro hs c hc hname o ho
+    unfold objClauses at hc
+    simp only [List.mem_cons, List.not_mem_nil, or_false] at hc
+    rcases hc with rfl | rfl | rfl | rfl | rfl | rfl | rfl | rfl | rfl | rfl | rfl | rfl | rfl | rfl | rfl | rfl | rfl | rfl | rfl | rfl |
+      rfl | rfl | rfl | rfl | rfl | rfl | rfl | rfl | rfl | rfl
+    all_goals first
+      | exact cl_siblings_ordered t (topoOK_OK t h) hs o ho
+      | (exfalso; revert hname; decide)
+
+/-- **build_wf, for EVERY abstract topology, no table**: under the five decidable side conditions (`topoOK`, `puOK`, `memOK`,
+`numaOK`, `sibOK`; the driver evaluates all five on every topology `buildTopo` returns and hwloc agrees with) the complete dump
+`toDump t` satisfies all 47 clauses of `Hw.Topo.WF`.  No bound on the depth, the arities, the number of memory children or the
+index values. -/
+theorem C07_build_wf (t : Topo) (h : topoOK t = true) (hp : puOK t = true) (hm : memOK t = true) (hn : numaOK t = true)
+    (hs : sibOK t = true) : WF (toDump t) :=
+  build_wf t h hp hm hn hs
+
+/-- hence the executable check of the two clauses (`restOK`, the hypothesis of `C07_build_wf_partial`) always succeeds -/
+theorem C07_build_wf_rest (t : Topo) (h : topoOK t = true) (hn : numaOK t = true) (hs : sibOK t = true) : restOK (toDump t) = true :=
+  restOK_toDump t (topoOK_OK t h) hn hs
+
+/-- non-vacuity: the whole bounded family and the 5-level topology satisfy the five side conditions -/
+example : wfFamily.all (fun t => topoOK t && puOK t && memOK t && numaOK t && sibOK t) = true := by decide
+example : (fun t => topoOK t && puOK t && memOK t && numaOK t && sibOK t) (orderTopo [] [{ type := tPACKAGE, arity := 3, mem := [⟨1024, 0⟩, ⟨2048, 512⟩] },
+    { type := tL1 + 2, arity := 2, cdepth := 3, ctype := 0, size := 1048576 }, { type := tCORE, arity := 2 }, { type := tPU, arity := 2 }]
+    (List.range 24) (List.range 6)) = true := by decide
+/-- ... with interleaved PU indexes, which `orderTopo` sorts into place (Package:2 Core:2 PU:2, indexes 0,4,2,6,1,5,3,7) -/
+example : (fun t => topoOK t && puOK t && memOK t && numaOK t && sibOK t) (orderTopo [⟨4096, 0⟩] [{ type := tPACKAGE, arity := 2 },
+    { type := tCORE, arity := 2 }, { type := tPU, arity := 2, os := some [0, 4, 2, 6, 1, 5, 3, 7] }] [0, 4, 2, 6, 1, 5, 3, 7] [0]) = true := by decide
+/-- `sibOK` is needed: two PUs listed as [1, 0] below the root meet the other four conditions, but the dump is not well-formed
+(its only violated clause is `siblings-ordered`) -/
+example : (fun t => (topoOK t && puOK t && memOK t && numaOK t, sibOK t, wfCheck (toDump t)))
+    { rootMem := [⟨4096, 0⟩], levels := [{ type := tPU, arity := 2, osIdx := [1, 0] }], puIdx := [1, 0], numaIdx := [0] } =
+    (true, false, ["siblings-ordered@1"]) := by decide
 
 /-! ### export_fixpoint — general, for the flag word NO_ATTRS | IGNORE_MEMORY -/
 
